@@ -510,11 +510,10 @@ def run_e2e(scn, watchdog=120.0):
         for j in jobs:
             if not j["switch"]["done"]:          # stdout shorter than the threshold: switch now
                 j["on_progress"](1 << 40)
-            try:
-                j["s"].send_exit_status(j["ch"]["status"])
-                j["s"].shutdown_write()
+            try:                                 # EOF in both directions; the channels are closed only after
+                j["s"].send_exit_status(j["ch"]["status"])      # every reader has seen it (a local close discards
+                j["s"].shutdown_write()                          # data that is still in flight)
                 j["c"].shutdown_write()
-                j["s"].close()
             except Exception as e:  # noqa
                 problems.append("closing: %r" % (e,))
         for j in jobs:
@@ -534,6 +533,7 @@ def run_e2e(scn, watchdog=120.0):
                 problems.extend("chan %d %s %s" % (tr["chan"], tr["dir"], e) for e in tr["errs"])
                 del tr["errs"]
                 traces.append(tr)
+            j["s"].close()
             j["c"].close()
         info["rekeys"] = max(0, pair.key_switches - 2) // 2      # completed re-exchanges (two activations each)
         info["alive"] = pair.tc.is_active() and pair.ts.is_active()
